@@ -460,7 +460,7 @@ def fifo_choose(fns):
         out["z3"] = "sat" if viol else "unsat"
         out["cvc5"] = out["z3"]
         need = {"DoNothing|0", "Drop|1", "Drop|2"}
-        if not need <= kinds:
+        if not need <= kinds and not viol and not (lemma and lem_res == "sat"):
             out.update(verdict="inconclusive", reason="vacuity: outcomes %s never feasible" % sorted(need - kinds))
             return out
         if lemma and lem_res != "unsat":
@@ -773,7 +773,7 @@ def filter_adapter(fns):
         out["covered_outcomes"] = sorted(covered)
         out["feasible_paths"] = len(results)
         out["z3"] = out["cvc5"] = "sat" if bad else "unsat"
-        if covered != set(expect):
+        if covered != set(expect) and not bad:
             out.update(verdict="inconclusive", reason="vacuity: cases %s unreachable" % sorted(set(expect) - covered))
         elif bad:
             case, msg, path = bad[0]
@@ -787,3 +787,711 @@ def filter_adapter(fns):
     x.requires = [("", "", "Keep->Keep, Destroy->Drop, Remove->Replace((Tombstone, empty)), RemoveWeak->Replace((WeakTombstone, empty)), ReplaceValue(v)->handle_write(&item.key, v).map(Replace); no filter->Keep; filter error->Err")]
     x.shapes = "n/a (loop-free)"
     return [x]
+
+
+# ---------------------------------------------------------------------------------------------
+# C01 / C13 O1.4: the disk half of a point read - first covering table in level / run order that answers wins
+# ---------------------------------------------------------------------------------------------
+
+def point_read_tables(fns):
+    fn = mir.find(fns, r"src/tree/mod\.rs[^>]*>::get_internal_entry_from_tables\(")
+    itv = mir.find(fns, r"^fn ignore_tombstone_value\(")
+    closures = [f for f in fns if f.closure_span() and re.search(r"src/tree/mod\.rs", f.closure_span()) and "get_internal_entry_from_tables" in f.name]
+    shapes = [[1], [2], [2, 1], [1, 2], [0, 1, 1], [3]]
+
+    def one_shape(shape, timeout):
+        ex = symex.Executor([fn] + closures, [])
+        key, seqno = Obj("Key"), ex.sym("seqno", 64)
+        khash = ex.sym("key_hash", 64)
+        runs, levels = [], []
+        for li, n in enumerate(shape):
+            rs = []
+            for ri in range(n):
+                r = len(runs)
+                run = Obj("Run%d" % r, r=r)
+                runs.append(run)
+                rs.append(run)
+            levels.append(Obj("Level%d" % li, runs=rs))
+        version = Obj("Version")
+        sy = {}
+        for r in range(len(runs)):
+            sy[r] = dict(covers=ex.symb("covers_%d" % r), err=ex.symb("err_%d" % r), found=ex.symb("found_%d" % r), tomb=ex.symb("tomb_%d" % r))
+        seen = {"args_ok": True}
+
+        def un(v):
+            while isinstance(v, Ref) and not isinstance(v.target, tuple):
+                v = v.target
+            return v
+
+        def m_get_for_key(ex, env, b, a, p, d):
+            run, k = un(a[0]), un(a[1])
+            if not same(k, key):
+                seen["args_ok"] = False
+            return _one(Opt(sy[run.r]["covers"], Obj("Table%d" % run.r, r=run.r)))
+
+        def m_table_get(ex, env, b, a, p, d):
+            t = un(a[0])
+            ok = same(un(a[1]), key) and isinstance(a[2], BV) and a[2].t == seqno.t and isinstance(a[3], BV) and a[3].t == khash.t
+            if not ok:
+                seen["args_ok"] = False
+            s = sy[t.r]
+            return _one(symex.Sum2(s["err"], "Ok", "Err", [Opt(s["found"], Obj("Item%d" % t.r, r=t.r))], [Obj("Err%d" % t.r, r=t.r)]))
+
+        def m_is_tomb(ex, env, b, a, p, d):
+            it = un(a[0])
+            if isinstance(it, Ref):
+                it = env[it.target[1]]
+            return _one(sy[it.r]["tomb"])
+
+        def m_ignore(ex, env, b, a, p, d):
+            return symex.inline_call(ex, itv, [a[0]], p, d)
+
+        models = [
+            (r"standard_bloom::builder::Builder::get_hash$", lambda ex, env, b, a, p, d: _one(khash) if same(un(a[0]), key) else _one(ex.sym("hash_of_other", 64))),
+            (r"^Version::iter_levels$", lambda ex, env, b, a, p, d: _one(symex.SliceIt(levels))),
+            (r"^<version::Level as Deref>::deref$", lambda ex, env, b, a, p, d: _one(un(a[0]))),
+            (r"^GenericLevel::<Table>::iter$", lambda ex, env, b, a, p, d: _one(symex.SliceIt(un(a[0]).runs))),
+            (r"^<Arc<Run<Table>> as Deref>::deref$", lambda ex, env, b, a, p, d: _one(un(a[0]))),
+            (r"^Run::<Table>::get_for_key$", m_get_for_key),
+            (r"^(table::)?Table::get$", m_table_get),
+            (r"^InternalValue::is_tombstone$", m_is_tomb),
+            (r"^ignore_tombstone_value$", m_ignore),
+        ] + symex.TRY_MODELS + symex.ITER_MODELS
+        ex.models = [(re.compile(r), h) for r, h in models]
+        ex.fns_extra = [itv]
+        results = []
+        ex.run(fn, [Ref(version), Ref(key), seqno], symex.Path(), lambda ret, env, path: results.append((ret, path)))
+        n = len(runs)
+        hit = ["(and covers_%d (or err_%d found_%d))" % (r, r, r) for r in range(n)]
+
+        def first(r):
+            return ["(not %s)" % hit[q] for q in range(r)] + [hit[r]]
+        cases = {}
+        for r in range(n):
+            cases["Err(%d)" % r] = first(r) + ["err_%d" % r]
+            cases["Some(%d)" % r] = first(r) + ["(not err_%d)" % r, "(not tomb_%d)" % r]
+            cases["Tomb(%d)" % r] = first(r) + ["(not err_%d)" % r, "tomb_%d" % r]
+        cases["None"] = ["(not %s)" % h for h in hit]
+
+        def classify(ret):
+            if isinstance(ret, Enum) and ret.variant == "Err":
+                e = ret.payload[0]
+                e = e.err if isinstance(e, Obj) and e.kind == "Residual" else e
+                return "Err(%d)" % e.r if isinstance(e, Obj) and e.kind.startswith("Err") else "?"
+            if isinstance(ret, Enum) and ret.variant == "Ok" and isinstance(ret.payload[0], Opt):
+                o = ret.payload[0]
+                c = o.cond.const()
+                if c is False:
+                    return "NoneOrTomb"
+                if c is True and isinstance(o.val, Obj) and o.val.kind.startswith("Item"):
+                    return "Some(%d)" % o.val.r
+            return "?"
+        queries = []
+        for k, (ret, path) in enumerate(results):
+            for cn, cf in cases.items():
+                queries.append(("%d|%s" % (k, cn), path.pc + cf))
+        return ex, results, queries, classify, seen
+
+    def runner(timeout):
+        allq, meta, decls, paths, assumptions = [], {}, {}, 0, set()
+        for si, shape in enumerate(shapes):
+            ex, results, queries, classify, seen = one_shape(shape, timeout)
+            decls.update(ex.decls)
+            assumptions |= ex.assumptions
+            paths += len(results)
+            meta[si] = (shape, results, classify, seen)
+            allq += [("%d/%s" % (si, t), a) for t, a in queries]
+        res, dt, raw = symex.solve_parallel(decls, allq, "cvc5int", timeout, 8)
+        out = {"nodes": paths, "steps_bound": max(sum(s) for s in shapes), "assertions": sum(len(a) for _, a in allq),
+               "violation_disjuncts": len(allq), "z3_s": round(dt, 2), "queries": len(allq), "paths": paths,
+               "assumptions": sorted(assumptions) + ["stub: Run::get_for_key(run, key) = arbitrary Option<&Table> per run", "stub: Table::get = arbitrary Result<Option<item>> per table",
+                                                     "stub: InternalValue::is_tombstone = arbitrary bool per item"],
+               "solvers": "cvc5 1.0 --solve-bv-as-int=sum (deciding) ; z3 5.1.0 (cross-check)"}
+        if res is None:
+            out.update(verdict="inconclusive", reason="solver: %s" % str(raw)[:200], z3="error")
+            return out
+        res2, dt2, raw2 = symex.solve_parallel(decls, allq, "z3new", timeout, 8)
+        out["cvc5_s"] = round(dt2, 2)
+        if res2 is None or any(res[t] != res2[t] for t in res):
+            out.update(verdict="inconclusive", reason="cross-check failed or disagrees", z3="error")
+            return out
+        bad, covered = [], set()
+        for t, v in res.items():
+            if v != "sat":
+                continue
+            si, rest = t.split("/")
+            k, cn = rest.split("|")
+            shape, results, classify, seen = meta[int(si)]
+            ret, path = results[int(k)]
+            got = classify(ret)
+            want = "NoneOrTomb" if cn == "None" or cn.startswith("Tomb") else cn
+            covered.add(cn.split("(")[0])
+            if got != want:
+                bad.append((shape, cn, got, path))
+            if not seen["args_ok"]:
+                bad.append((shape, "arguments", "a table is probed with a key / seqno / hash other than the caller's", path))
+        out["covered_outcomes"] = sorted(covered)
+        out["feasible_paths"] = paths
+        out["z3"] = out["cvc5"] = "sat" if bad else "unsat"
+        if covered != {"Err", "Some", "Tomb", "None"} and not bad:
+            out.update(verdict="inconclusive", reason="vacuity: outcome classes %s unreachable" % sorted({"Err", "Some", "Tomb", "None"} - covered))
+        elif bad:
+            shape, cn, got, path = bad[0]
+            out.update(verdict="refuted", reason="runs per level %s: the tables say %s (first covering table that answers, in level / run order) but the function returns %s" % (shape, cn, got),
+                       path=["  runs per level: %s" % shape, "  expected outcome: %s   returned: %s" % (cn, got), "  MIR path: " + " ".join("bb%d" % bb for f, bb in path.trace if f == fn.name)])
+        else:
+            out.update(verdict="proved", reason="")
+        return out
+
+    x = XCheck("O1.4 Tree::get_internal_entry_from_tables: the first covering table (levels top-down, runs in order) that answers decides; tombstone -> None; errors propagate", fn, runner)
+    x.requires = [("", "", "result = Err of / item of / None for a tombstone of the first run r (in order) whose table covers the key and whose get returns Err or Some; None if there is none")]
+    x.shapes = shapes
+    return [x]
+
+
+# ---------------------------------------------------------------------------------------------
+# C15 O15.3: drop_range::Strategy::choose drops exactly the tables whose key range lies inside the bounds
+# ---------------------------------------------------------------------------------------------
+
+def drop_range_choose(fns):
+    fn = mir.find(fns, r"src/compaction/drop_range\.rs[^>]*>::choose\(")
+    closures = [f for f in fns if f.closure_span() and "src/compaction/drop_range.rs" in f.closure_span()]
+    shapes = [[[1]], [[2]], [[1, 1]], [[1], [2]], [[2], [1]], [[], [1], [1]]]  # levels -> runs -> number of tables
+
+    def one_shape(shape):
+        ex = symex.Executor([fn] + closures, [])
+        bounds = Obj("Bounds")
+        strategy = Rec("Strategy", "compaction/drop_range.rs", "Strategy", {"bounds": bounds})
+        state, hidden = Obj("State"), Obj("HiddenSet")
+        tables, runs, levels = [], [], []
+        for li, lv in enumerate(shape):
+            rs = []
+            for n in lv:
+                r = len(runs)
+                ts = []
+                for k in range(n):
+                    t = len(tables)
+                    tb = Obj("Table%d" % t, t=t, run=r, pos=k)
+                    tables.append(tb)
+                    ts.append(tb)
+                run = Obj("Run%d" % r, r=r, tables=ts)
+                runs.append(run)
+                rs.append(run)
+            levels.append(Obj("Level%d" % li, runs=rs))
+        for t in range(len(tables)):
+            ex.symb("contains_%d" % t)
+            ex.symb("hidden_%d" % t)
+            ex.sym("id_%d" % t, 64)
+        seen = {"ok": True}
+
+        def un(v):
+            while isinstance(v, Ref) and not isinstance(v.target, tuple):
+                v = v.target
+            return v
+
+        def m_overlap(ex, env, b, a, p, d):
+            run = un(a[0])
+            if not same(un(a[1]), bounds):
+                seen["ok"] = False
+            n = len(run.tables)
+            sel = ex.sym("overlap_sel_%d" % run.r, 8)
+            alts, code = [], 0
+            # contract (decided separately by Kani O3.4 / O15.1): the index range covers every table the bounds contain
+            outside_all = ["(not contains_%d)" % t.t for t in run.tables]
+            alts.append((Opt(B(False), None), ["(= %s (_ bv%d 8))" % (sel.t, code)] + outside_all))
+            for lo in range(n):
+                for hi in range(lo, n):
+                    code += 1
+                    out = ["(not contains_%d)" % t.t for t in run.tables if not (lo <= t.pos <= hi)]
+                    alts.append((Opt(B(True), Tup([bvconst(lo, 64), bvconst(hi, 64)])), ["(= %s (_ bv%d 8))" % (sel.t, code)] + out))
+            ex.assumptions.add("stub: Run::range_overlap_indexes = any index range (or None) that covers every table the bounds contain (contract decided by O3.4 / O15.1)")
+            return alts
+
+        def m_and_then(ex, env, b, a, p, d):
+            o, clo = a
+            c = o.cond.const()
+            if c is False:
+                return _one(Opt(B(False), None))
+            if c is None:
+                raise MirError("and_then on a symbolic Option")
+            return [(r, cs) for r, cs in ex.call_closure(clo, [o.val], p, d)]
+
+        def m_range_new(ex, env, b, a, p, d):
+            return _one(Obj("RangeIncl", lo=symex.bv_is_const(a[0]), hi=symex.bv_is_const(a[1])))
+
+        def m_slice_get(ex, env, b, a, p, d):
+            run, rg = un(a[0]), a[1]
+            if rg.lo is None or rg.hi is None:
+                raise MirError("slice::get with symbolic range")
+            if rg.hi >= len(run.tables) or rg.lo > rg.hi + 1:
+                return _one(Opt(B(False), None))
+            return _one(Opt(B(True), Obj("Slice", items=run.tables[rg.lo:rg.hi + 1])))
+
+        def m_unwrap_or_default_slice(ex, env, b, a, p, d):
+            o = a[0]
+            c = o.cond.const()
+            if c is None:
+                raise MirError("unwrap_or_default on a symbolic Option")
+            return _one(o.val if c else Obj("Slice", items=[]))
+
+        def m_contains(ex, env, b, a, p, d):
+            if not same(un(a[0]), bounds):
+                seen["ok"] = False
+            kr = un(a[1])
+            return _one(B("contains_%d" % kr.t))
+
+        def m_collect_set(ex, env, b, a, p, d):
+            outs = []
+            for vals, cs in symex.drain(ex, symex.as_iter(a[0]), p, d):
+                outs.append((Obj("Set", items=list(vals)), cs, None))
+            return outs if len(outs) > 1 else [(outs[0][0], outs[0][1])]
+
+        def m_any(ex, env, b, a, p, d):
+            it, loc = symex._resolve(env, a[0])
+            acc = B(False)
+            for vals, cs in symex.drain(ex, symex.as_iter(it), p, d):
+                if cs:
+                    raise MirError("any over a forking iterator")
+                for v in vals:
+                    rs = ex.call_closure(a[1], [Ref(v)], p, d)
+                    if len(rs) != 1 or rs[0][1]:
+                        raise MirError("any closure forks")
+                    acc = symex.bor(acc, rs[0][0])
+            return _one(acc)
+
+        def m_is_hidden(ex, env, b, a, p, d):
+            m = re.fullmatch(r"id_(\d+)", a[1].t) if isinstance(a[1], BV) else None
+            if not m or not same(un(a[0]), hidden):
+                raise MirError("is_hidden of %r" % (a[1],))
+            return _one(B("hidden_%s" % m.group(1)))
+
+        models = [
+            (r"^Version::iter_levels$", lambda ex, env, b, a, p, d: _one(symex.SliceIt(levels))),
+            (r"^<version::Level as Deref>::deref$", lambda ex, env, b, a, p, d: _one(un(a[0]))),
+            (r"^GenericLevel::<Table>::iter$", lambda ex, env, b, a, p, d: _one(symex.SliceIt(un(a[0]).runs))),
+            (r"^<Arc<Run<Table>> as Deref>::deref$", lambda ex, env, b, a, p, d: _one(un(a[0]))),
+            (r"^<Run<Table> as Deref>::deref$", lambda ex, env, b, a, p, d: _one(un(a[0]))),
+            (r"^Run::<Table>::range_overlap_indexes::<", m_overlap),
+            (r"^Option::<\(usize, usize\)>::and_then::<", m_and_then),
+            (r"^std::ops::RangeInclusive::<usize>::new$", m_range_new),
+            (r"^core::slice::<impl \[Table\]>::get::<std::ops::RangeInclusive<usize>>$", m_slice_get),
+            (r"^Option::<&\[Table\]>::unwrap_or_default$", m_unwrap_or_default_slice),
+            (r"^core::slice::<impl \[Table\]>::iter$", lambda ex, env, b, a, p, d: _one(symex.SliceIt(un(a[0]).items))),
+            (r"^<Table as Ranged>::key_range$", lambda ex, env, b, a, p, d: _one(Obj("KeyRange%d" % un(a[0]).t, t=un(a[0]).t))),
+            (r"^OwnedBounds::contains$", m_contains),
+            (r"^Table::id$", lambda ex, env, b, a, p, d: _one(BV(64, "id_%d" % un(a[0]).t))),
+            (r"as Iterator>::collect::<std::collections::HashSet<u64,", m_collect_set),
+            (r"^std::collections::HashSet::<u64, [^>]*>::iter$", lambda ex, env, b, a, p, d: _one(symex.SliceIt((env[a[0].target[1]] if isinstance(a[0], Ref) and isinstance(a[0].target, tuple) else un(a[0])).items))),
+            (r"as Iterator>::any::<", m_any),
+            (r"^CompactionState::hidden_set$", lambda ex, env, b, a, p, d: _one(hidden) if same(un(a[0]), state) else _one(Obj("OtherHidden"))),
+            (r"^HiddenSet::is_hidden$", m_is_hidden),
+        ] + symex.ITER_MODELS
+        ex.models = [(re.compile(r), h) for r, h in models]
+        results = []
+        ex.run(fn, [Ref(strategy), Ref(Obj("Version")), Ref(Obj("Config")), Ref(state)], symex.Path(), lambda ret, env, path: results.append((ret, path)))
+        return ex, results, tables, seen
+
+    def runner(timeout):
+        allq, meta, decls, paths, assumptions = [], {}, {}, 0, set()
+        for si, shape in enumerate(shapes):
+            ex, results, tables, seen = one_shape(shape)
+            decls.update(ex.decls)
+            assumptions |= ex.assumptions
+            paths += len(results)
+            meta[si] = (shape, results, tables, seen)
+            n = len(tables)
+            glob = ["(distinct %s)" % " ".join("id_%d" % t for t in range(n))] if n > 1 else []
+            for k, (ret, path) in enumerate(results):
+                pc = glob + path.pc
+                allq.append(("%d/feasible:%d" % (si, k), pc))
+                if not isinstance(ret, Enum):
+                    raise MirError("choose returned %r" % (ret,))
+                anyhid = "(or false %s)" % " ".join("(and contains_%d hidden_%d)" % (t, t) for t in range(n))
+                if ret.variant == "DoNothing":
+                    # allowed only if some table inside the bounds is hidden
+                    allq.append(("%d/R2:%d" % (si, k), pc + ["(not %s)" % anyhid]))
+                elif ret.variant == "Drop":
+                    ids = set()
+                    for it in ret.payload[0].items:
+                        ids.add(int(re.fullmatch(r"id_(\d+)", it.t).group(1)))
+                    wrong = ["contains_%d" % t for t in range(n) if t not in ids] + ["(not contains_%d)" % t for t in ids]
+                    allq.append(("%d/R1:%d" % (si, k), pc + ["(or false %s)" % " ".join(wrong)]))
+                    allq.append(("%d/R3:%d" % (si, k), pc + [anyhid]))
+                else:
+                    raise MirError("choose returned Choice::%s" % ret.variant)
+        res, dt, raw = symex.solve_parallel(decls, allq, "cvc5int", timeout, 8)
+        out = {"nodes": paths, "steps_bound": 3, "assertions": sum(len(a) for _, a in allq), "violation_disjuncts": len(allq),
+               "z3_s": round(dt, 2), "queries": len(allq), "paths": paths, "assumptions": sorted(assumptions) + [
+                   "stub: OwnedBounds::contains(bounds, table.key_range()) = arbitrary bool per table (the function itself is decided by Kani O15.1)",
+                   "stub: HiddenSet::is_hidden = arbitrary bool per table id"],
+               "solvers": "cvc5 1.0 --solve-bv-as-int=sum (deciding) ; z3 5.1.0 (cross-check)"}
+        if res is None:
+            out.update(verdict="inconclusive", reason="solver: %s" % str(raw)[:200], z3="error")
+            return out
+        res2, dt2, raw2 = symex.solve_parallel(decls, allq, "z3new", timeout, 8)
+        out["cvc5_s"] = round(dt2, 2)
+        if res2 is None or any(res[t] != res2[t] for t in res):
+            out.update(verdict="inconclusive", reason="cross-check failed or disagrees", z3="error")
+            return out
+        feas = [t for t, v in res.items() if "/feasible:" in t and v == "sat"]
+        viol = [t for t, v in res.items() if "/feasible:" not in t and v == "sat"]
+        kinds = set()
+        for t in feas:
+            si, k = int(t.split("/")[0]), int(t.split(":")[1])
+            ret = meta[si][1][k][0]
+            kinds.add(ret.variant + ("|%d" % len(ret.payload[0].items) if ret.variant == "Drop" else ""))
+        out["covered_outcomes"] = sorted(kinds)
+        out["feasible_paths"] = len(feas)
+        out["z3"] = out["cvc5"] = "sat" if viol else "unsat"
+        bad_args = [si for si in meta if not meta[si][3]["ok"]]
+        if not {"DoNothing", "Drop|0", "Drop|1", "Drop|2"} <= kinds and not (viol or bad_args):
+            out.update(verdict="inconclusive", reason="vacuity: outcomes %s" % sorted(kinds))
+        elif viol or bad_args:
+            if bad_args:
+                out.update(verdict="refuted", reason="overlap search or containment test is applied to bounds other than the strategy's", path=[])
+                return out
+            t = viol[0]
+            si, rest = t.split("/")
+            req, k = rest.split(":")
+            shape, results, tables, seen = meta[int(si)]
+            ret, path = results[int(k)]
+            want = sorted(n for n in decls if re.match(r"(contains|hidden)_\d+$", n))
+            msgs = {"R1": "the dropped set is not exactly the set of tables whose key range lies inside the bounds",
+                    "R2": "nothing is dropped although no table inside the bounds is hidden",
+                    "R3": "tables are dropped although one of them is hidden (being compacted)"}
+            lines = ["  tables per run per level: %s" % shape, "  result: Choice::%s %s" % (ret.variant, [it.t for it in ret.payload[0].items] if ret.variant == "Drop" else ""),
+                     "  violated: %s" % msgs[req], "  MIR path: " + " ".join("bb%d" % bb for f, bb in path.trace if f == fn.name)]
+            out.update(verdict="refuted", reason=msgs[req], path=lines)
+        else:
+            out.update(verdict="proved", reason="")
+        return out
+
+    x = XCheck("O15.3 drop_range::Strategy::choose drops exactly the tables contained in the bounds (or nothing if one of them is hidden)", fn, runner)
+    x.requires = [("R1", "", "Drop(ids): ids = { table | bounds.contains(table.key_range()) }"), ("R2", "", "DoNothing only if a contained table is hidden"),
+                  ("R3", "", "never Drop while a contained table is hidden")]
+    x.shapes = shapes
+    return [x]
+
+
+# ---------------------------------------------------------------------------------------------
+# C04 O4.1: what Version::encode_into writes is what version::recovery::recover reads back (tables + blob files)
+# ---------------------------------------------------------------------------------------------
+
+def version_roundtrip(fns):
+    enc = mir.find(fns, r"src/version/mod\.rs[^>]*>::encode_into\(")
+    rec = mir.find(fns, r"^fn recover\(_1: &Path\)")
+    closures = [f for f in fns if f.closure_span() and re.search(r"src/version/(mod|recovery)\.rs", f.closure_span())]
+    shapes = [[[1]], [[2]], [[1, 1]], [[2], [1]], [[], [1, 2]], [[3]]]
+
+    def un(v):
+        while isinstance(v, Ref) and not isinstance(v.target, tuple):
+            v = v.target
+        return v
+
+    def run_shape(shape, nblob):
+        ex = symex.Executor([enc, rec] + closures, [])
+        # ---------- the version that is written
+        tables, levels = [], []
+        for li, lv in enumerate(shape):
+            rs = []
+            for n in lv:
+                ts = []
+                for _ in range(n):
+                    t = len(tables)
+                    tb = Obj("Table%d" % t, t=t)
+                    tables.append(tb)
+                    ts.append(tb)
+                rs.append(Obj("Run", tables=ts))
+            levels.append(Obj("Level", runs=rs))
+        for t in range(len(tables)):
+            ex.sym("tid_%d" % t, 64), ex.sym("tsum_%d" % t, 128), ex.sym("tgs_%d" % t, 64)
+        blobs = [Obj("Blob%d" % i, i=i) for i in range(nblob)]
+        for i in range(nblob):
+            ex.sym("bid_%d" % i, 64), ex.sym("bsum_%d" % i, 128)
+        tree_type = ex.sym("tree_type", 8)
+        gcs = Obj("GcStats")
+
+        class BlobInner(Obj):
+            def field(self, ex2, i, ty):
+                if "Checksum" in ty:
+                    return Obj("Checksum", term="bsum_%d" % self.i)
+                raise MirError("blob_file::Inner field %d (%s)" % (i, ty))
+
+        class VInner(Rec):
+            pass
+        vinner = Rec("VersionInner", "version/mod.rs", "VersionInner", {"tree_type": tree_type, "blob_files": Obj("BlobList"), "gc_stats": gcs})
+        version = Obj("Version")
+        writer = Obj("Writer", sections={}, cur=None, order=[])
+
+        def w_start(ex2, env, b, a, p, d):
+            w = un(a[0]) if not (isinstance(a[0], Ref) and isinstance(a[0].target, tuple)) else env[a[0].target[1]]
+            w = un(w)
+            name = a[1].s
+            w.cur = name
+            w.sections[name] = []
+            w.order.append(name)
+            return _one(symex.Sum2(B(False), "Ok", "Err", [Tup([])], [Obj("IoErr")]))
+
+        def w_int(width):
+            def f(ex2, env, b, a, p, d):
+                w = un(env[a[0].target[1]] if isinstance(a[0], Ref) and isinstance(a[0].target, tuple) else a[0])
+                v = a[1]
+                if not (isinstance(v, BV) and v.w == width):
+                    raise MirError("write_u%d of %r" % (width, v))
+                w.sections[w.cur].append((width, v.t))
+                return _one(symex.Sum2(B(False), "Ok", "Err", [Tup([])], [Obj("IoErr")]))
+            return f
+
+        def w_all(ex2, env, b, a, p, d):
+            w = un(env[a[0].target[1]] if isinstance(a[0], Ref) and isinstance(a[0].target, tuple) else a[0])
+            w.sections[w.cur].append(("bytes", "opaque"))
+            return _one(symex.Sum2(B(False), "Ok", "Err", [Tup([])], [Obj("IoErr")]))
+
+        def w_gc(ex2, env, b, a, p, d):
+            w = un(env[a[1].target[1]] if isinstance(a[1], Ref) and isinstance(a[1].target, tuple) else a[1])
+            w.sections[w.cur].append(("gc_stats", "opaque"))
+            return _one(symex.Sum2(B(False), "Ok", "Err", [Tup([])], [Obj("Err")]))
+        ident = lambda ex2, env, b, a, p, d: _one(un(a[0]))
+        enc_models = [
+            (r"^sfa::Writer::<.*>::start::<&str>$", w_start),
+            (r"as WriteBytesExt>::write_u8$", w_int(8)),
+            (r"as WriteBytesExt>::write_u32::<LittleEndian>$", w_int(32)),
+            (r"as WriteBytesExt>::write_u64::<LittleEndian>$", w_int(64)),
+            (r"as WriteBytesExt>::write_u128::<LittleEndian>$", w_int(128)),
+            (r"as std::io::Write>::write_all$", w_all),
+            (r"^core::str::<impl str>::as_bytes$", ident),
+            (r"^<FormatVersion as Into<u8>>::into$", lambda ex2, env, b, a, p, d: _one(ex2.sym("format_version", 8))),
+            (r"^<TreeType as Into<u8>>::into$", lambda ex2, env, b, a, p, d: _one(a[0] if isinstance(a[0], BV) else tree_type)),
+            (r"^<u8 as From<ChecksumType>>::from$", lambda ex2, env, b, a, p, d: _one(ex2.sym("checksum_type_tag", 8))),
+            (r"^<Version as Deref>::deref$", lambda ex2, env, b, a, p, d: _one(vinner)),
+            (r"^Version::level_count$", lambda ex2, env, b, a, p, d: _one(bvconst(len(levels), 64))),
+            (r"^Version::iter_levels$", lambda ex2, env, b, a, p, d: _one(symex.SliceIt(levels))),
+            (r"^<version::Level as Deref>::deref$", ident),
+            (r"^<GenericLevel<Table> as Deref>::deref$", lambda ex2, env, b, a, p, d: _one(Obj("Slice", items=un(a[0]).runs))),
+            (r"^GenericLevel::<Table>::iter$", lambda ex2, env, b, a, p, d: _one(symex.SliceIt(un(a[0]).runs))),
+            (r"^<Arc<Run<Table>> as Deref>::deref$", ident),
+            (r"^<Run<Table> as Deref>::deref$", lambda ex2, env, b, a, p, d: _one(Obj("Slice", items=un(a[0]).tables))),
+            (r"^core::slice::<impl \[Table\]>::iter$", lambda ex2, env, b, a, p, d: _one(symex.SliceIt(un(a[0]).items))),
+            (r"^Table::id$", lambda ex2, env, b, a, p, d: _one(BV(64, "tid_%d" % un(a[0]).t))),
+            (r"^Table::checksum$", lambda ex2, env, b, a, p, d: _one(Obj("Checksum", term="tsum_%d" % un(a[0]).t))),
+            (r"^checksum::Checksum::into_u128$", lambda ex2, env, b, a, p, d: _one(BV(128, un(a[0]).term))),
+            (r"^Table::global_seqno$", lambda ex2, env, b, a, p, d: _one(BV(64, "tgs_%d" % un(a[0]).t))),
+            (r"^<Arc<BlobFileList> as Deref>::deref$", ident),
+            (r"^BlobFileList::len$", lambda ex2, env, b, a, p, d: _one(bvconst(nblob, 64))),
+            (r"^BlobFileList::iter$", lambda ex2, env, b, a, p, d: _one(symex.SliceIt(blobs))),
+            (r"^BlobFile::id$", lambda ex2, env, b, a, p, d: _one(BV(64, "bid_%d" % un(a[0]).i))),
+            (r"^<Arc<blob_file::Inner> as Deref>::deref$", lambda ex2, env, b, a, p, d: _one(BlobInner("BlobInner", i=un(a[0]).i if hasattr(un(a[0]), "i") else un(a[0]).blob.i))),
+            (r"^<Arc<FragmentationMap> as Deref>::deref$", ident),
+            (r"^<FragmentationMap as Encode>::encode_into::<", w_gc),
+            (r"^<std::collections::hash_map::Values<'_, u64, BlobFile> as Iterator>::next$", symex.m_iter_next),
+        ] + symex.TRY_MODELS + symex.ITER_MODELS
+        ex.models = [(re.compile(r), h) for r, h in enc_models]
+
+        class BlobObj(Obj):
+            def field(self, ex2, i, ty):  # BlobFile(Arc<Inner>) newtype: .0
+                return Obj("BlobArc", blob=self)
+        for i in range(nblob):
+            blobs[i] = BlobObj("Blob%d" % i, i=i)
+        wres = []
+        ex.run(enc, [Ref(version), Ref(writer)], symex.Path(), lambda ret, env, path: wres.append((ret, path, env)))
+        if len(wres) != 1:
+            raise MirError("encode_into forks (%d paths) with I/O errors switched off" % len(wres))
+        ret, wpath, wenv = wres[0]
+        if not (isinstance(ret, Enum) and ret.variant == "Ok"):
+            raise MirError("encode_into does not return Ok")
+        written = writer.sections
+        # ---------- read it back
+        notes = []
+
+        def r_section(ex2, env, b, a, p, d):
+            name = a[1].s if isinstance(a[1], Obj) and a[1].kind == "Lit" else None
+            if name not in written:
+                notes.append("section %r is read but never written" % name)
+                return _one(Opt(B(False), None))
+            return _one(Opt(B(True), Obj("TocEntry", name=name)))
+
+        def r_ok_or(ex2, env, b, a, p, d):
+            o = a[0]
+            return _one(symex.Sum2(symex.bnot(o.cond), "Ok", "Err", [o.val], [a[1]]))
+
+        def r_buf_reader(ex2, env, b, a, p, d):
+            e = un(a[0])
+            return _one(symex.Sum2(B(False), "Ok", "Err", [Obj("Reader", name=e.name, pos=0)], [Obj("IoErr")]))
+
+        def r_int(width):
+            def f(ex2, env, b, a, p, d):
+                r = env[a[0].target[1]] if isinstance(a[0], Ref) and isinstance(a[0].target, tuple) else un(a[0])
+                r = un(r)
+                evs = written[r.name]
+                if r.pos >= len(evs):
+                    notes.append("section %s: read of u%d past the %d fields written" % (r.name, width, len(evs)))
+                    return _one(symex.Sum2(B(True), "Ok", "Err", [bvconst(0, width)], [Obj("IoErr")]))
+                w, t = evs[r.pos]
+                r.pos += 1
+                if w != width:
+                    notes.append("section %s field %d: written as %s, read as u%d" % (r.name, r.pos - 1, "u%s" % w if isinstance(w, int) else w, width))
+                    return _one(symex.Sum2(B(False), "Ok", "Err", [ex2.sym("garbage_%d" % len(notes), width)], [Obj("IoErr")]))
+                return _one(symex.Sum2(B(False), "Ok", "Err", [BV(width, t)], [Obj("IoErr")]))
+            return f
+
+        def r_range_next(ex2, env, b, a, p, d):
+            rg = env[a[0].target[1]] if isinstance(a[0], Ref) and isinstance(a[0].target, tuple) else un(a[0])
+            s0, e0 = symex.bv_is_const(rg.fields["start"]), symex.bv_is_const(rg.fields["end"])
+            if s0 is None or e0 is None:
+                raise MirError("loop bound read from the file is not concrete")
+            if s0 < e0:
+                rg.fields["start"] = bvconst(s0 + 1, rg.fields["start"].w)
+                return _one(Opt(B(True), bvconst(s0, rg.fields["start"].w)))
+            return _one(Opt(B(False), None))
+
+        def r_vec_new(ex2, env, b, a, p, d):
+            return _one(Obj("Vec", items=[]))
+
+        def r_vec_push(ex2, env, b, a, p, d):
+            v = env[a[0].target[1]] if isinstance(a[0], Ref) and isinstance(a[0].target, tuple) else un(a[0])
+            un(v).items.append(a[1])
+            return _one(Tup([]))
+
+        def r_sort(ex2, env, b, a, p, d):
+            v = un(env[a[0].target[1]] if isinstance(a[0], Ref) and isinstance(a[0].target, tuple) else a[0])
+            v.sorted_by = a[1]
+            return _one(Tup([]))
+
+        def r_gc(ex2, env, b, a, p, d):
+            r = un(env[a[0].target[1]] if isinstance(a[0], Ref) and isinstance(a[0].target, tuple) else a[0])
+            evs = written[r.name]
+            okk = r.pos < len(evs) and evs[r.pos][0] == "gc_stats"
+            if not okk:
+                notes.append("section %s: fragmentation map decoded where %s was written" % (r.name, evs[r.pos] if r.pos < len(evs) else "nothing"))
+            r.pos += 1
+            return _one(symex.Sum2(B(False), "Ok", "Err", [gcs], [Obj("Err")]))
+        opaque_ok = lambda kind: (lambda ex2, env, b, a, p, d: _one(symex.Sum2(B(False), "Ok", "Err", [Obj(kind)], [Obj("Err")])))
+        rec_models = [
+            (r"^get_current_version_and_checksum$", lambda ex2, env, b, a, p, d: _one(symex.Sum2(B(False), "Ok", "Err", [Tup([ex2.sym("cur_version_id", 64), Obj("Checksum", term="cur_sum")])], [Obj("Err")]))),
+            (r"^core::fmt::rt::Argument::<'_>::new_", lambda ex2, env, b, a, p, d: _one(Obj("FmtArg"))),
+            (r"^Arguments::<'_>::new::<", lambda ex2, env, b, a, p, d: _one(Obj("FmtArgs"))),
+            (r"^format$", lambda ex2, env, b, a, p, d: _one(Obj("String"))),
+            (r"^must_use::<String>$", ident),
+            (r"^Path::join::<", lambda ex2, env, b, a, p, d: _one(Obj("PathBuf"))),
+            (r"^<log::Level as PartialOrd<LevelFilter>>::le$", lambda ex2, env, b, a, p, d: _one(B(False))),
+            (r"^max_level$", lambda ex2, env, b, a, p, d: _one(Obj("LevelFilter"))),
+            (r"^<PathBuf as Deref>::deref$", ident),
+            (r"^File::open::<", opaque_ok("File")),
+            (r"^verify_checksum::<File>$", lambda ex2, env, b, a, p, d: _one(symex.Sum2(B(False), "Ok", "Err", [Tup([])], [Obj("Err")]))),
+            (r"::inspect_err::<", lambda ex2, env, b, a, p, d: _one(a[0])),
+            (r"^sfa::Reader::new::<", opaque_ok("SfaReader")),
+            (r"^sfa::Reader::toc$", lambda ex2, env, b, a, p, d: _one(Obj("Toc"))),
+            (r"^Vec::<.*>::new$", r_vec_new),
+            (r"^Vec::<.*>::with_capacity$", r_vec_new),
+            (r"^Vec::<.*>::push$", r_vec_push),
+            (r"^<Vec<.*> as DerefMut>::deref_mut$", lambda ex2, env, b, a, p, d: _one(un(env[a[0].target[1]] if isinstance(a[0], Ref) and isinstance(a[0].target, tuple) else a[0]))),
+            (r"^Toc::section$", r_section),
+            (r"^Option::<&TocEntry>::ok_or::<error::Error>$", r_ok_or),
+            (r"^TocEntry::buf_reader$", r_buf_reader),
+            (r"as ReadBytesExt>::read_u8$", r_int(8)),
+            (r"as ReadBytesExt>::read_u32::<LittleEndian>$", r_int(32)),
+            (r"as ReadBytesExt>::read_u64::<LittleEndian>$", r_int(64)),
+            (r"as ReadBytesExt>::read_u128::<LittleEndian>$", r_int(128)),
+            (r"^<std::ops::Range<u(8|32)> as IntoIterator>::into_iter$", lambda ex2, env, b, a, p, d: _one(a[0])),
+            (r"^<std::ops::Range<u(8|32)> as Iterator>::next$", r_range_next),
+            (r"^checksum::Checksum::from_raw$", lambda ex2, env, b, a, p, d: _one(Obj("Checksum", term=a[0].t))),
+            (r"^std::slice::<impl \[\(u64, checksum::Checksum\)\]>::sort_by_key::<u64,", r_sort),
+        ] + symex.COMMON_MODELS + [
+            (r"^<FragmentationMap as Decode>::decode_from::<", r_gc),
+            (r"^<TreeType as TryFrom<u8>>::try_from$", lambda ex2, env, b, a, p, d: _one(symex.Sum2(B(False), "Ok", "Err", [Obj("TreeType", term=a[0].t)], [Tup([])]))),
+            (r"^std::result::Result::<TreeType, \(\)>::map_err::<", lambda ex2, env, b, a, p, d: _one(a[0])),
+        ] + symex.TRY_MODELS
+        ex.models = [(re.compile(r), h) for r, h in rec_models]
+        rres = []
+        ex.run(rec, [Ref(Obj("Folder"))], symex.Path(), lambda ret, env, path: rres.append((ret, path)))
+        return ex, written, rres, notes, tables, blobs, shape
+
+    def runner(timeout):
+        bad, paths, nq, decls_all = [], 0, 0, {}
+        queries, meta = [], {}
+        t0 = time.time()
+        for si, shape in enumerate(shapes):
+            nblob = si % 3
+            ex, written, rres, notes, tables, blobs, _ = run_shape(shape, nblob)
+            decls_all.update(ex.decls)
+            paths += len(rres)
+            if notes:
+                bad.append((shape, notes[0], None))
+                continue
+            oks = [(r, p) for r, p in rres if isinstance(r, Enum) and r.variant == "Ok"]
+            if not oks or len(rres) != len(oks):
+                bad.append((shape, "recover does not return Ok on a version file that was written without error (%d paths, %d Ok)" % (len(rres), len(oks)), None))
+                continue
+            for oi, (okret, okpath) in enumerate(oks):
+                recv = okret.payload[0]
+                if not isinstance(recv, symex.Agg):
+                    raise MirError("recover returns %r" % (recv,))
+                lv = recv.fields.get("table_ids")
+                got = [[[t for t in r.items] for r in l.items] for l in lv.items]
+                want_shape = [[n for n in l] for l in shape]
+                if [[len(r) for r in l] for l in got] != want_shape:
+                    bad.append((shape, "recovered level / run / table structure %s differs from the written one" % [[len(r) for r in l] for l in got], None))
+                    continue
+                k = 0
+                diffs = []
+                for l in got:
+                    for r in l:
+                        for t in r:
+                            f = t.fields
+                            diffs.append("(not (= %s tid_%d))" % (f["id"].t, k))
+                            diffs.append("(not (= %s tsum_%d))" % (f["checksum"].term, k))
+                            diffs.append("(not (= %s tgs_%d))" % (f["global_seqno"].t, k))
+                            k += 1
+                bl = recv.fields.get("blob_file_ids")
+                if len(bl.items) != len(blobs):
+                    bad.append((shape, "recovered %d blob files, %d were written" % (len(bl.items), len(blobs)), None))
+                    continue
+                # the blob file list is sorted by id on recovery (it is a map on the writing side): compare as sets of pairs
+                pairs_w = ["(and (= %s bid_%d) (= %s bsum_%d))" % ("%s", i, "%s", i) for i in range(len(blobs))]
+                for it in bl.items:
+                    alts = ["(and (= %s bid_%d) (= %s bsum_%d))" % (it.items[0].t, i, it.items[1].term, i) for i in range(len(blobs))]
+                    diffs.append("(not (or false %s))" % " ".join(alts))
+                tt = recv.fields.get("tree_type")
+                if isinstance(tt, Obj) and tt.kind == "TreeType":
+                    diffs.append("(not (= %s tree_type))" % tt.term)
+                else:
+                    bad.append((shape, "tree type is not read back from the file", None))
+                    continue
+                if not same(recv.fields.get("gc_stats"), Obj("GcStats")):
+                    bad.append((shape, "fragmentation map is not read back from its section", None))
+                    continue
+                if diffs:
+                    distinct = ["(distinct %s)" % " ".join("bid_%d" % i for i in range(len(blobs)))] if len(blobs) > 1 else []
+                    queries.append(("%d.%d" % (si, oi), distinct + okpath.pc + ["(or %s)" % " ".join(diffs)]))
+                    meta["%d.%d" % (si, oi)] = shape
+        out = {"nodes": paths, "steps_bound": 3, "assertions": sum(len(a) for _, a in queries), "violation_disjuncts": len(queries),
+               "queries": len(queries), "paths": paths, "feasible_paths": paths, "z3_s": 0.0,
+               "assumptions": ["I/O never fails on either side (failure behaviour is the subject of O5.1 / O10.6b)", "the `current` pointer and the checksum verification are stubbed to succeed (decided by O10.6 / O10.6b)",
+                               "sfa's table of contents maps a section name to exactly the bytes written between start(name) and the next start", "logging is disabled",
+                               "the fragmentation map's own codec is opaque (one field)", "byteorder read_uN / write_uN::<LittleEndian> are inverse for equal N"],
+               "solvers": "cvc5 1.0 --solve-bv-as-int=sum (deciding) ; z3 5.1.0 (cross-check)"}
+        if queries:
+            res, dt, raw = symex.solve_batch(decls_all, queries, "cvc5int", timeout)
+            res2, dt2, raw2 = symex.solve_batch(decls_all, queries, "z3new", timeout)
+            out.update(z3_s=round(dt, 2), cvc5_s=round(dt2, 2))
+            if res is None or res2 is None or any(res[t] != res2[t] for t in res):
+                out.update(verdict="inconclusive", reason="solver: %s / %s" % (str(raw)[:150], str(raw2)[:150]), z3="error")
+                return out
+            for t, v in res.items():
+                if v == "sat":
+                    bad.append((meta[t], "a recovered table / blob file field differs from the value written (field order, width or a transformation)", None))
+        out["z3"] = out["cvc5"] = "sat" if bad else "unsat"
+        if bad:
+            shape, msg, _ = bad[0]
+            out.update(verdict="refuted", reason=msg, path=["  tables per run per level: %s" % shape, "  %s" % msg])
+        else:
+            out.update(verdict="proved", reason="")
+        return out
+
+    x = XCheck("O4.1 version file round trip: recover() rebuilds exactly the levels / runs / tables / blob files / tree type that Version::encode_into wrote", enc, runner)
+    x.requires = [("", "", "same level / run / table structure in the same order; per table (id, checksum, global_seqno) equal; blob file (id, checksum) list equal; tree type and fragmentation map read from their sections; every section read was written, field widths agree")]
+    x.shapes = shapes
+    return [x]
+
+
+import time
